@@ -12,7 +12,10 @@ pub mod dedup;
 use dedup::DeduplicationBuffer;
 
 /// Reference: shift register holding the last `cap` distinct accepted items.
-fn check(cap: usize, steps: usize) {
+fn check(cap: usize, steps: usize) { check_alpha(cap, steps, 4) }
+
+/// same with an alphabet of `alpha` letters (capacity 4 needs 5 letters for an eviction to happen)
+fn check_alpha(cap: usize, steps: usize, alpha: u8) {
     let mut d: DeduplicationBuffer<u8> = DeduplicationBuffer::new(cap);
     let mut reg: [Option<u8>; 4] = [None; 4];
     let mut n = 0usize;
@@ -20,7 +23,7 @@ fn check(cap: usize, steps: usize) {
     let mut evictions = 0u8;
     let mut dups = 0u8;
     while step < steps {
-        let x = sym::any_below(4);
+        let x = sym::any_below(alpha);
         let mut present = false;
         let mut i = 0;
         while i < n { if reg[i] == Some(x) { present = true; } i += 1; }
@@ -41,7 +44,7 @@ fn check(cap: usize, steps: usize) {
         // never holds more than `capacity` items: count the alphabet letters it still reports
         let mut held = 0;
         let mut c = 0u8;
-        while c < 4 { if d.contains(&c) { held += 1; } c += 1; }
+        while c < alpha { if d.contains(&c) { held += 1; } c += 1; }
         vassert!(held <= cap, "C24.capacity: the buffer never holds more than `capacity` items");
         vassert!(held == n, "C24.exact: the buffer holds exactly the reference window");
         step += 1;
@@ -56,7 +59,7 @@ fn check(cap: usize, steps: usize) {
 #[cfg_attr(kani, kani::proof)] #[cfg_attr(kani, kani::unwind(8))] pub fn cap3_len5() { check(3, 5); }
 #[cfg_attr(kani, kani::proof)] #[cfg_attr(kani, kani::unwind(9))] pub fn cap2_len7() { check(2, 7); }
 #[cfg_attr(kani, kani::proof)] #[cfg_attr(kani, kani::unwind(9))] pub fn cap3_len7() { check(3, 7); }
-#[cfg_attr(kani, kani::proof)] #[cfg_attr(kani, kani::unwind(9))] pub fn cap4_len7() { check(4, 7); }
+#[cfg_attr(kani, kani::proof)] #[cfg_attr(kani, kani::unwind(9))] pub fn cap4_len7() { check_alpha(4, 7, 5); }
 
 #[cfg(all(test, not(kani)))]
 mod replay_entry {
